@@ -45,7 +45,7 @@ func runHighBits(b *harness.B) {
 			// through every tree of the run (up to heights far beyond 32)
 			k = 1 + rng.IntN(2)
 			top := 20 + rng.IntN(42)
-			hi = rng.Uint64()&^(1<<(top+2)-1) | (1<<(top+1) - 1)&^(1<<(k+1)-1)
+			hi = rng.Uint64()&^(1<<(top+2)-1) | (1<<(top+1)-1)&^(1<<(k+1)-1)
 		}
 		hi &^= 1 << 62 // keep the count far from 2^64 so that added leaves cannot overflow it
 		numLeaves := hi | 1<<k
